@@ -247,9 +247,14 @@ func (w *World) recoveredBy(ins ssa.Instruction) (bool, string) {
 					continue
 				}
 				cl := mc.Fn.(*ssa.Function)
-				hasRecover, setsErr := false, false
+				hasRecover, setsErr, rePanics := false, false, false
 				for _, cb := range cl.Blocks {
 					for _, ci := range cb.Instrs {
+						if _, isPanic := ci.(*ssa.Panic); isPanic {
+							// a handler that throws some recovered values again (C15-v3: everything
+							// but type-assertion errors) does not turn every panic into an error
+							rePanics = true
+						}
 						if c := callInstrCommon(ci); c != nil {
 							if bi, ok := c.Value.(*ssa.Builtin); ok && bi.Name() == "recover" {
 								hasRecover = true
@@ -264,7 +269,7 @@ func (w *World) recoveredBy(ins ssa.Instruction) (bool, string) {
 						}
 					}
 				}
-				if hasRecover && setsErr {
+				if hasRecover && setsErr && !rePanics {
 					return true, "deferred " + shortFuncName(cl) + " recovers and assigns the error result"
 				}
 			}
